@@ -220,6 +220,37 @@ def high_order_cases(ctx):
                         break
 
 
+def integer_points(ctx):
+    """The point given with an integer type (Python int, numpy integer scalars, 0-d and 1-d integer arrays, lists of ints): the same bits as
+    for the float64 point with the same value.  (float32 points are NOT in this list: NumPy carries single precision through the steps and
+    the evaluations, which is the caller's choice of precision, outside the statement -- DESIGN 9.3.)"""
+    import numdifftools as nd
+
+    def f(x):
+        return np.exp(0.5 * x) + x ** 3
+    for method in NMAX:
+        for n in (1, 2, 3):
+            if n > NMAX[method]:
+                continue
+            for xi in (1, -2, 0, 3):
+                ref_s = nd.Derivative(f, n=n, method=method, full_output=True)(float(xi))
+                ref_v = nd.Derivative(f, n=n, method=method, full_output=True)(np.array([float(xi), float(xi + 1)]))
+                for name, xv, ref in (('Python int', xi, ref_s), ('np.int64', np.int64(xi), ref_s), ('np.int32', np.int32(xi), ref_s), ('0-d integer array', np.array(xi), ref_s),
+                                      ('list of ints', [xi, xi + 1], ref_v), ('int64 array', np.array([xi, xi + 1]), ref_v)):
+                    desc = {'f': 'np.exp(0.5*x) + x**3', 'n': n, 'method': method, 'x': xi, 'x_given_as': name}
+                    try:
+                        got = nd.Derivative(f, n=n, method=method, full_output=True)(xv)
+                    except Exception as ex:   # noqa
+                        ctx.violation('integer-point-raises:%s' % method, 'nd.Derivative(f, n=%d, method=%r)(x = %r given as %s) raises %r' % (n, method, xi, name, ex), desc)
+                        continue
+                    ctx.count(1, ('integer-point', method))
+                    if np.shape(got[0]) != np.shape(ref[0]) or not np.array_equal(np.asarray(got[0]), np.asarray(ref[0])) \
+                            or not np.array_equal(np.asarray(got[1].error_estimate), np.asarray(ref[1].error_estimate)):
+                        if ctx.violation('integer-point:%s' % method, 'nd.Derivative(lambda x: np.exp(0.5*x) + x**3, n=%d, method=%r)(x = %r given as %s) = %r, for the float64 point %r' % (
+                                n, method, xi, name, np.asarray(got[0]).tolist(), np.asarray(ref[0]).tolist()), desc):
+                            return
+
+
 def run(ctx):
     import numdifftools as nd
     proof_stage(ctx, ['Props/C01.v', 'Props/C01b.v'])
@@ -291,6 +322,7 @@ def run(ctx):
     ctx.cov['skipped'] = skipped
     large_x_cases(ctx)
     high_order_cases(ctx)
+    integer_points(ctx)
     sweep(ctx, ctx.n(25, 400) if not ctx.broken else 150)
     ctx.assumptions += ['PARTIAL: proved = exactness of the whole pipeline on estimates of the modelled form (hence on polynomials, via C06/C07/C13) and n = 0; NOT proved = the accuracy envelope for non-polynomial analytic f (explored by the sweep against mpmath Taylor coefficients, with an envelope calibrated on the unchanged tree)',
                         'difference quotients, pinv rows and h**n are recorded from the run (stencils: C05/C06)']
